@@ -518,7 +518,14 @@ func (r *CheckRun) report(aggs []*AggObl, freports []FuncReport, vacuity []strin
 			if !confirmed {
 				suffix = " no-failing-input-found"
 			}
-			if inBase[id] || len(baseline[r.Prop]) == 0 || confirmed {
+			// a refuted safety obligation of a function whose other obligations are in the baseline is new code that can fault
+			funcProved := false
+			for n := range inBase {
+				if strings.HasPrefix(n, a.Func+" ") {
+					funcProved = true
+				}
+			}
+			if inBase[id] || len(baseline[r.Prop]) == 0 || confirmed || (a.Name == "safety" && funcProved) {
 				lines = append(lines, fmt.Sprintf("VIOLATION property=%s replay=%s%s", r.Prop, replay, suffix))
 				violations++
 				exit = 1
